@@ -10,7 +10,7 @@ prove      : lake build SteelVerif.C02.Props (+ axiom audit): the inlining pass 
              the configuration sets cover the extracted switches pairwise / exhaustively.
 correspond : one child process of harness `c02` per configuration (the switches are read from the process
              environment): directed corpus, whole programs (gen/progs.py), lowered-core programs (gen/frag.py),
-             whole-language histories, directed patterns of the finding classes, programs over user modules,
+             whole-language histories, directed patterns of the finding classes, programs over user modules, self tail calls whose operands are conditionals over the other parameters,
              operand-type coverage of the native tier, and model histories (gen/hist02.py).  All configurations
              have to produce the same record (script output, values, error-or-success, error kind) per piece.
              A difference is attributed to an open finding only if the input is in the finding's class AND the
@@ -32,14 +32,14 @@ from gen.progs import gen_program            # noqa: E402
 from gen.frag import gen_frag_program        # noqa: E402
 from gen.hist02 import (gen_history, gen_model_history, gen_k02a_pattern, gen_k02b_pattern,   # noqa: E402
                         gen_module_program, gen_jitops_program, gen_manyparams_program, gen_sendtwice_program,
-                        gen_nested_module_calls)
+                        gen_nested_module_calls, gen_tailcall_operand_conditionals)
 
 PID = "C02"
 META = {
     "ready": True,
     "category": "proof",
-    "technique": "Lean 4 theorems about the configuration-dependent mechanisms on the lowered core of C01 (inlining pass preserves the reference semantics; two-tier execution is schedule-independent; unit-local inlining across evaluation histories is transparent exactly under a stated guard, with a machine-checked counter-witness outside it; the tested configuration sets cover the switches extracted from the source) + differential execution of generated programs and piecewise histories under a pairwise-covering (quick) / the complete (thorough) set of switch settings, one process per configuration, with the reference semantics as a third party",
-    "level_text": "Proved (SteelVerif/C02/Props.lean), for all programs of the lowered core, all stacks, all call depths: inline_preserves (one pass of the inliner with the real legality conditions - known unit-local callee, size below threshold, exact operand count, policy 'defined before the call site and not assigned in the unit' - yields a value iff the original does, and the same one; also with every procedure body of the unit rewritten), inline_twice_preserves (STEEL_INLINE: the pass run again on its own output), fold_preserves / inline_then_fold_preserves (constant folding and dead-branch elimination of what inlining exposes: identical results at identical fuel, errors included), tier_transparent_partial (CONDITIONAL: a machine that hands execution between interpreter and native tier at arbitrary instruction boundaries computes the result of the interpreter, for every schedule, GIVEN that a native instruction does what the interpreter's does on every state - that hypothesis is the JIT part of the property and is not proved; the hand-over state of the real protocol is not modelled) with tier_hypothesis_needed / tier_hypothesis_needed_error (a native call without arity check, and a native primitive that goes on with a placeholder after a type error - the shape of finding K02e - are observable), inline_needs_arity_check (without the operand-count condition - the recursive inliner, finding K02b - the rewrite turns an error into a value), inline_history_partial (pieces evaluated one after another over global cells, each compiled by the unit-local inliner: same observations as without inlining for every history in which no piece assigns a cell an earlier piece could inline) and inline_history_false (the full statement is refuted by the history define f, define g calling f / set! f / call g), switches_covered + quick_pairwise + thorough_complete (decided facts about tables: the configuration sets used by the run cover the five switches found in the source; nothing about program behaviour). The clauses of the property that no theorem carries are listed at the end of Props.lean. NOT proved: that the Cranelift tier implements each op code like the interpreter (the hypothesis of tier_transparent_partial - the differential run showed it to be false for errors raised by specialised primitive op codes, K02e, repaired by 89a126cc, and still shows it false for K02g/K02i), closure lifting, cross-module inlining, the recursive inliner, constant propagation; these are covered only by the differential run, which is a per-program fact. Open findings reproduced by the run: K02a (inlined global assigned later: stale copies to a configuration-dependent depth), K02c (STEEL_MODULE_INLINE turns value imports into live bindings), K02f (recursive inliner and a procedure that assigns its own parameter), K02g / K02i (native code keeps a local operand as a reference to its slot: a later set! or moving read changes it), K02h (stack-overflow diagnostic prints the instruction listing), K02j (a panic under a native frame aborts instead of unwinding), K02k (null? test on an empty vector). Repaired after being found by this check and now regression inputs of the corpus (a recurrence is a VIOLATION): K02b (afee3c69 recursive inliner ignored the operand count), K02d (e847bfbf stale module AST defeated the set_bang guard), K02e (89a126cc errors inside native library code were lost or aborted the process).",
+    "technique": "Lean 4 theorems about the configuration-dependent mechanisms on the lowered core of C01 and about a model of the JIT's late materialisation of operands (inlining pass preserves the reference semantics; two-tier execution is schedule-independent; unit-local inlining across evaluation histories is transparent exactly under a stated guard, with a machine-checked counter-witness outside it; the tested configuration sets cover the switches extracted from the source) + differential execution of generated programs and piecewise histories under a pairwise-covering (quick) / the complete (thorough) set of switch settings, one process per configuration, with the reference semantics as a third party",
+    "level_text": "Proved (SteelVerif/C02/Props.lean), for all programs of the lowered core, all stacks, all call depths: inline_preserves (one pass of the inliner with the real legality conditions - known unit-local callee, size below threshold, exact operand count, policy 'defined before the call site and not assigned in the unit' - yields a value iff the original does, and the same one; also with every procedure body of the unit rewritten), inline_twice_preserves (STEEL_INLINE: the pass run again on its own output), fold_preserves / inline_then_fold_preserves (constant folding and dead-branch elimination of what inlining exposes: identical results at identical fuel, errors included), tier_transparent_partial (CONDITIONAL: a machine that hands execution between interpreter and native tier at arbitrary instruction boundaries computes the result of the interpreter, for every schedule, GIVEN that a native instruction does what the interpreter's does on every state - that hypothesis is the JIT part of the property and is not proved; the hand-over state of the real protocol is not modelled) with tier_hypothesis_needed / tier_hypothesis_needed_error (a native call without arity check, and a native primitive that goes on with a placeholder after a type error - the shape of finding K02e - are observable), inline_needs_arity_check (without the operand-count condition - the recursive inliner, finding K02b - the rewrite turns an error into a value), inline_history_partial (pieces evaluated one after another over global cells, each compiled by the unit-local inliner: same observations as without inlining for every history in which no piece assigns a cell an earlier piece could inline) and inline_history_false (the full statement is refuted by the history define f, define g calling f / set! f / call g), switches_covered + quick_pairwise + thorough_complete (decided facts about tables: the configuration sets used by the run cover the five switches found in the source; nothing about program behaviour). The clauses of the property that no theorem carries are listed at the end of Props.lean. NOT proved: that the Cranelift tier implements each op code like the interpreter (the hypothesis of tier_transparent_partial - the differential run showed it to be false for errors raised by specialised primitive op codes, K02e, repaired by 89a126cc, and still shows it false for K02g/K02i), closure lifting, cross-module inlining, the recursive inliner, constant propagation; these are covered only by the differential run, which is a per-program fact. JIT SHADOW STACK (SteelVerif/C02/JitShadow.lean, JitShadowProps.lean, namespace C02J): the part of the native tier that the open miscompilation findings concern - operands kept on a compile-time stack as references to argument slots / SSA values / already-pushed flags and materialised late (cgen.rs MaybeStackValue, shadow_spill, translate_if_else_value) - is modelled as a second semantics of operand code (const, read, moving read, set-local, drop, inline primitives, calls that spill, two-way conditionals with straight-line branches) next to the interpreter's, whose reads/moves/assignments are proved to be C01C.step's (read_is_step, move_is_step, setl_is_step).  Proved for all operand programs, slots and values: shadow_transparent (native code reaches the same slots and operand stack as the interpreter for every program that passes two static guards - no assignment to a slot while a reference to it is pending; both sides of a conditional leave every pending entry in the same state - from every ordered shadow stack), shapes_static (the guards concern compile-time shapes only), shadow_transparent_false (without the guards the statement is false).  jit2/cgen.rs has neither guard: the decided witnesses k02g_witness (set! of a pending reference: 6 instead of 3), k02i_witness (a moving read inside one branch: #<void> operand), k02n_else_spills_witness and lp_then_spills_witness (only one side of a conditional spills: operands never pushed / pushed twice, the self tail call takes shifted arguments and never terminates), both_move_not_compiled (Cranelift's verifier rejects the function) are the operand programs of K02g, K02i, K02n and of the reported lp loop with the values the real engine gives.  This LOCATES the cause of K02n and K02i (one defect: the state after a join is the else branch's) and K02g; the class predicates of K02i/K02n/K02o in this check are now by cause (a variable occurring on some paths only of a later operand; a two-way branch under a pending operand exactly one side of which spills), no longer the syntactic constant-test shape.  Not modelled: let scopes, nested conditionals, errors/deoptimisation, the Cranelift emission.  Open findings reproduced by the run: K02a (inlined global assigned later: stale copies to a configuration-dependent depth), K02c (STEEL_MODULE_INLINE turns value imports into live bindings), K02f (recursive inliner and a procedure that assigns its own parameter), K02g / K02i (native code keeps a local operand as a reference to its slot: a later set! or moving read changes it), K02h (stack-overflow diagnostic prints the instruction listing), K02j (a panic under a native frame aborts instead of unwinding), K02k (null? test on an empty vector). Repaired after being found by this check and now regression inputs of the corpus (a recurrence is a VIOLATION): K02b (afee3c69 recursive inliner ignored the operand count), K02d (e847bfbf stale module AST defeated the set_bang guard), K02e (89a126cc errors inside native library code were lost or aborted the process).",
     "level_note": "Trusted: Lean kernel, the translator regexes, harness/driver/comparison, generator coverage. The model of the inliner is my transcription on the lowered core (absolute stack offsets) of analysis.rs inline_function_calls/inline_handle_define; it is tied to the code only by the differential run (model value = value under every configuration on fragment programs and model histories).",
 }
 
@@ -116,9 +116,15 @@ def cfg_text(cfg, values):
     return " ".join("%s=%s" % kv for kv in sorted(e.items())) or "(all switches unset)"
 
 
+PIECE_LIMIT_MS = {"v": 12000}
+
+
 def child_env(extra):
     e = {k: v for k, v in os.environ.items() if not k.startswith("STEEL_")}
     e.update(extra)
+    # native code that never returns (K02n/K02o: a self tail call with shifted arguments) cannot be interrupted:
+    # the harness ends the child when one piece runs longer than this
+    e["C02_PIECE_LIMIT_MS"] = str(PIECE_LIMIT_MS["v"])
     return e
 
 
@@ -330,6 +336,7 @@ CLASS_NAMES = {
     "K02l": "computed_operator_with_nine_or_more_operands_in_native_code",
     "K02m": "list_of_nine_or_more_operands_nested_as_later_operand_in_native_code",
     "K02n": "conditional_with_constant_test_as_operand_in_recursive_module_procedure",
+    "K02o": "conditional_as_later_operand_whose_branches_differ_in_spilling_the_pending_operands",
 }
 CLASS_ALIASES = {"K02a": ("global_defined_and_read_in_one_unit_assigned_later",)}   # K06a: the same defect seen by C06
 IDX_INLINE_RECURSIVE = SWITCH_NAMES.index("STEEL_INLINE_RECURSIVE")
@@ -405,16 +412,152 @@ def operand_assigned_later(text):
     return False
 
 
+CONDITIONALS = ("if", "cond", "and", "or", "when", "unless", "case")
+
+
+def _occurs(x, v):
+    return _contains(x, lambda y: y == v)
+
+
+def _occurs_in_branches(y, v):
+    """v occurs in a part of the conditional form y that only some paths through y evaluate."""
+    if not isinstance(y, list) or not y or y[0] not in CONDITIONALS:
+        return False
+    if y[0] in ("if", "when", "unless"):
+        return any(_occurs(b, v) for b in y[2:])
+    if y[0] in ("and", "or"):
+        return any(_occurs(b, v) for b in y[2:])
+    if y[0] == "cond":
+        cl = [c for c in y[1:] if isinstance(c, list) and c]
+        return any(_occurs(c[1:], v) for c in cl[:1]) or any(_occurs(c, v) for c in cl[1:])
+    return any(_occurs(b, v) for b in y[2:])          # case: the clauses
+
+
 def operand_moved_later(text):
-    """K02i: an application has a bare variable as an operand and a LATER operand containing a conditional one of
-    whose branches is that same variable (its last, moving, read)."""
+    """K02i (by cause): an application has a bare variable v as an operand - native code keeps it as a reference to
+    v's slot - and a LATER operand contains a conditional in which v occurs on some paths only.  v's last read is a
+    moving read; inside a branch it materialises the pending reference on that path only, and the state after the
+    join is the else branch's (cgen.rs translate_if_else_value)."""
     for app in _applications(read_sexps(text)):
         for i, a in enumerate(app[1:], 1):
             if isinstance(a, str) and re.match(r"[A-Za-z]", a):
                 for b in app[i + 1:]:
-                    if _contains(b, lambda y, a=a: isinstance(y, list) and len(y) >= 3 and y[0] == "if" and a in y[2:4]):
+                    if _contains(b, lambda y, a=a: _occurs_in_branches(y, a)):
                         return True
     return False
+
+
+# op codes the native tier translates without spilling the pending operands (cgen.rs op_to_name_payload); in module
+# code the primitives of these names compile to them, every other call goes through call_global_function /
+# call_function, which spill the shadow stack first.  At top level every call is a CALLGLOBAL.
+NO_SPILL_PRIMS = {"+", "-", "*", "/", "<", "<=", ">", ">=", "=", "equal?", "car", "cdr", "cons", "not", "null?", "box",
+                  "unbox", "set-box!", "list-ref", "vector-ref"}
+LET_FORMS = ("let", "let*", "letrec", "letrec*", "or", "case", "do")
+
+
+def _spills(x, module_mode):
+    """x contains (outside lambdas) something that makes native code spill the pending operands: a call that is
+    not translated inline, or a let scope (BEGINSCOPE)."""
+    if not isinstance(x, list) or not x:
+        return False
+    if x[0] in ("quote", "lambda"):
+        return False
+    if x[0] in LET_FORMS:
+        return True
+    if x[0] == "cond":
+        return any(_spills(e, module_mode) for c in x[1:] if isinstance(c, list) for e in c)
+    if isinstance(x[0], list):
+        return True
+    if isinstance(x[0], str) and x[0] not in SPECIAL:
+        if not (module_mode and x[0] in NO_SPILL_PRIMS and len(x) - 1 <= 2):
+            return True
+    return any(_spills(y, module_mode) for y in x[1:])
+
+
+def _desugar_conditional(y):
+    """-> (test, then, else) of the outermost two-way branch of a conditional form, or None."""
+    if y[0] == "if" and len(y) >= 3:
+        return y[1], y[2], (y[3] if len(y) > 3 else "#<void>")
+    if y[0] == "when" and len(y) >= 2:
+        return y[1], ["begin"] + y[2:], "#<void>"
+    if y[0] == "unless" and len(y) >= 2:
+        return y[1], "#<void>", ["begin"] + y[2:]
+    if y[0] == "and" and len(y) >= 3:
+        return y[1], (["and"] + y[2:] if len(y) > 3 else y[2]), "#f"
+    if y[0] == "cond" and len(y) >= 2 and isinstance(y[1], list) and y[1]:
+        c = y[1]
+        rest = ["cond"] + y[2:] if len(y) > 2 else "#<void>"
+        if c[0] == "else":
+            return None
+        return c[0], (["begin"] + c[1:] if len(c) > 1 else c[0]), rest
+    return None
+
+
+def branch_spill_asymmetry(text):
+    """K02n / K02o (by cause): a two-way branch is evaluated while an operand of an enclosing application is still
+    pending on the native code generator's shadow stack, and exactly one of its two sides contains something that
+    spills the pending operands (a call that is not translated inline, a let scope).  The state after the join is
+    the else side's (cgen.rs translate_if_else_value): on the then path the pending operands are then pushed twice
+    or not at all."""
+    module_mode = "(require " in text
+    hit = []
+
+    def walk(x, pending):
+        if hit or not isinstance(x, list) or not x:
+            return
+        h = x[0]
+        if h == "quote":
+            return
+        if h == "lambda":
+            for y in x[2:]:
+                walk(y, False)
+            return
+        if h == "define":
+            for y in x[2:]:
+                walk(y, False)
+            return
+        if h in ("let", "let*", "letrec", "letrec*", "do"):
+            # BEGINSCOPE spills everything that is pending: nothing is pending inside
+            for y in x[1:]:
+                if isinstance(y, list):
+                    for z in (y if (y and isinstance(y[0], list)) else [y]):
+                        walk(z if not (isinstance(z, list) and len(z) == 2 and isinstance(z[0], str)) else z[1], False)
+            return
+        if h in ("or", "case"):
+            for y in x[1:]:
+                walk(y, False)
+            return
+        if h in ("begin", "set!"):
+            for y in x[1:]:
+                walk(y, pending)
+            return
+        if h in ("if", "when", "unless", "and", "cond"):
+            d = _desugar_conditional(x)
+            if d is None:
+                for y in x[1:]:
+                    walk(y, pending)
+                return
+            t, a, b = d
+            if pending and _spills(a, module_mode) != _spills(b, module_mode):
+                hit.append(x)
+                return
+            walk(t, pending)
+            walk(a, pending)
+            walk(b, pending)
+            return
+        if h == "with-handler":
+            for y in x[1:]:
+                walk(y, False)
+            return
+        # an application: operand i is evaluated while operands 1..i-1 (and whatever was pending outside) wait
+        if isinstance(h, list):
+            walk(h, pending or len(x) > 1)
+        for i, y in enumerate(x[1:], 1):
+            walk(y, pending or i >= 2)
+
+    for f in read_sexps(text):
+        walk(f, False)
+    return bool(hit)
 
 
 def computed_call_many_operands(text):
@@ -685,8 +828,14 @@ def process(ctx, batch, configs, values, stats, known, recs=None):
                     attributed = "K02l"
             if attributed is None and "K02m" in known and jit_split and long_list_as_later_operand(item_text(batch, i)):
                 attributed = "K02m"
-            if attributed is None and "K02n" in known and jit_split and const_test_if_operand(item_text(batch, i)):
-                attributed = "K02n"
+            if attributed is None and jit_split and ("K02n" in known or "K02o" in known) and \
+                    branch_spill_asymmetry(item_text(batch, i)):
+                # the located cause (the state of the pending operands is not merged at a join); K02n is the listing
+                # of its module-level instances with a constant test, K02o of all others
+                if "K02o" in known and ("K02n" not in known or not const_test_if_operand(item_text(batch, i))):
+                    attributed = "K02o"
+                elif "K02n" in known:
+                    attributed = "K02n"
             if attributed is None and "K02h" in known and only_dump_differs(ra, rb):
                 attributed = "K02h"
             if attributed is None and "K02f" in known and assigned_parameter_called(pieces[: j + 1]) and \
@@ -939,6 +1088,7 @@ def run(ctx):
                           no_input=True)
     rng = random.Random(ctx.seed)
     q = ctx.quick()
+    PIECE_LIMIT_MS["v"] = 5000 if q else 20000
 
     batches = []
 
@@ -1074,6 +1224,29 @@ def run(ctx):
         batches.append(b)
     else:
         ctx.notes.append("stream nested-module-calls not run: finding K02n is not listed in KNOWN_FINDINGS.txt")
+
+    # 4g. self tail calls / applications whose operands are conditionals, and / or / not / cond over the other
+    #     parameters after operands that are still pending (what theorem C02J.shadow_transparent's two guards are
+    #     about: a branch that spills or materialises pending operands while the other does not, a set! or moving
+    #     read of a parameter an earlier operand refers to).  Top level (every call spills) and as a module (inline
+    #     primitives do not).  Certain to hit K02g / K02i / K02n: runs once those are listed.
+    if "K02n" in known or "K02o" in known:
+        b = Batch("tailcall-operands")
+        b.nospec = True
+        bm = Batch("tailcall-operands-as-module")
+        bm.nospec = True
+        for _ in range(10 if q else 200):
+            h = gen_tailcall_operand_conditionals(rng)
+            stats["features"]["tailcall-operand-conditionals"] = stats["features"].get("tailcall-operand-conditionals", 0) + 1
+            b.add(h["pieces"], cls={"text": ""})
+            path = os.path.join(pm_dir, "tco-%s.scm" % hashlib.sha1(h["module"].encode()).hexdigest()[:12])
+            with open(path, "w") as fh:
+                fh.write(h["module"])
+            bm.add(["(require \"%s\")" % path], meta=h["module"], cls={"text": h["module"]})
+        batches.append(b)
+        batches.append(bm)
+    else:
+        ctx.notes.append("stream tailcall-operands not run: neither K02n nor K02o is listed in KNOWN_FINDINGS.txt")
 
     # 5. model histories (lowered-core): the Lean model predicts the value under every configuration inside the guard
     batches.append(model_hist_batch(rng, 24 if q else 160, stats, ctx))
